@@ -36,7 +36,7 @@ ProcA == /\ pendA # <<>> /\ pendA' = Tail(pendA)
                 [] e.ev = "a_headers" -> IF e.open THEN ASendHeadersOpen(e.s, e.es) ELSE ASendHeaders(e.s, e.es)
                 [] e.ev = "a_cont"    -> AContinuation
                 [] e.ev = "a_rst"     -> ASendRst(e.s, e.n)
-                [] e.ev = "a_push"    -> ASendPush(e.s, e.n)
+                [] e.ev = "a_push"    -> IF e.open THEN ASendPushOpen(e.s, e.n) ELSE ASendPush(e.s, e.n)
                 [] e.ev = "a_prio"    -> ASendPrio(e.s)
                 [] e.ev = "a_ping"    -> ASendPing(e.n)
                 [] e.ev = "a_goaway"  -> ASendGoAway
